@@ -4,7 +4,7 @@ They are NOT obligations of the property: C17 only requires that every variant t
 variants (say, gains arms for `PtrMutex`, `ArcRwLock`, `ArcMutex`) is conformant, and these facts then stop being true. The check builds
 this module separately and reports a failure as informational drift, never as a violation.
 -/
-import Rrtk.Thm.C17
+import Rrtk.Thm.Ext.C17
 namespace Rrtk.Thm.C17Snapshot
 open Rrtk Rrtk.Thm.C17
 
@@ -25,5 +25,9 @@ theorem to_dyn_unlisted_never_convert (callerFeats rrtkFeats : List String) :
     toDynHasArmIn callerFeats rrtkFeats .ptrMutex = false ∧ toDynHasArmIn callerFeats rrtkFeats .arcRwLock = false ∧
     toDynHasArmIn callerFeats rrtkFeats .arcMutex = false := by
   simp [toDynHasArmIn, Gen.toDynDefs, RefVariant.name, featOn]
+
+/-- today an `Arc<Mutex>` Reference has no `to_dyn!` arm: the refined heap model and the abstract model both panic -/
+example : Heap.toDyn ["std"] [⟨.arcMutex, 5, false, 1⟩] ⟨.arcMutex, 0, false⟩ = .error (.panic .unimpl) := by rfl
+example : heapRun ["alloc", "std"] (RState.init .arcMutex) [.cl 0, .dy 1, .rd 0] = [.done, .panic .unimpl] := by rfl
 
 end Rrtk.Thm.C17Snapshot
